@@ -231,24 +231,54 @@ def assemble (cx : PCtx) (k : SKw) (p : Parts) (anyOf oneOf allOf : List Elem) (
 def orderDeps (ds : List (Key × Elem)) : List (Key × Elem) :=
   ds.filter (fun d => d.1.names.isSome) ++ ds.filter (fun d => d.1.names.isNone)
 
+/-- the parsed sub-schemas of one schema object, before any restructuring -/
+structure Kids where
+  items : List Elem := []
+  addItems : Option Elem × Bool := (none, true)
+  contains : Option Elem := none
+  props : List (String × Elem) := []
+  patProps : List (String × Elem) := []
+  addProps : Option Elem × Bool := (none, true)
+  propNames : Option Elem := none
+  deps : List (Key × Elem) := []
+  anyOf : List Elem := []
+  oneOf : List Elem := []
+  allOf : List Elem := []
+  not : Option Elem := none
+
+def partsOf (cx : PCtx) (k : SKw) (kids : Kids) : Parts :=
+  { items := kids.items
+    addItems := kids.addItems.1
+    addItemsB := kids.addItems.2
+    contains := kids.contains
+    props := buildProps cx (k.required.getD []) kids.props
+    patProps := kids.patProps.map (fun kv => ({ name := kv.1 }, kv.2))
+    addProps := kids.addProps.1
+    addPropsB := kids.addProps.2
+    propNames := kids.propNames
+    deps := orderDeps kids.deps }
+
+/-- `parse_element` on a schema object whose sub-schemas have been parsed -/
+def assembleK (cx : PCtx) (k : SKw) (kids : Kids) : Elem :=
+  assemble cx k (partsOf cx k kids) kids.anyOf kids.oneOf kids.allOf kids.not
+
 mutual
 def parseE (cx : PCtx) : Schema → Elem
   | .bool b => if b then Elem.trivial else Elem.nothing
   | .mk k items addI cont props pats addP pn deps anyOf oneOf allOf not =>
-    let addI' := parseAddl cx addI
-    let addP' := parseAddl cx addP
-    assemble cx k
+    assembleK cx k
       { items := parseList cx items
-        addItems := addI'.1
-        addItemsB := addI'.2
+        addItems := parseAddl cx addI
         contains := parseOpt cx cont
-        props := buildProps cx (k.required.getD []) (parseNamed cx props)
-        patProps := (parseNamed cx pats).map (fun kv => ({ name := kv.1 }, kv.2))
-        addProps := addP'.1
-        addPropsB := addP'.2
+        props := parseNamed cx props
+        patProps := parseNamed cx pats
+        addProps := parseAddl cx addP
         propNames := parseOpt cx pn
-        deps := orderDeps (parseDeps cx deps) }
-      (parseList cx anyOf) (parseList cx oneOf) (parseList cx allOf) (parseOpt cx not)
+        deps := parseDeps cx deps
+        anyOf := parseList cx anyOf
+        oneOf := parseList cx oneOf
+        allOf := parseList cx allOf
+        not := parseOpt cx not }
 def parseOpt (cx : PCtx) : Option Schema → Option Elem
   | none => none
   | some s => some (parseE cx s)
